@@ -196,7 +196,7 @@ def shrink_candidates(c):
 
 def extra_checks(tier, rng, findings):
     """thorough tier: repeat the corpus and a structured sample against a --release build of the harness."""
-    if tier != 'thorough':
+    if tier != 'thorough' and __import__('os').environ.get('VERIF_RELEASE_RERUN') != '1':
         return {}
     import itertools
     import os
